@@ -55,6 +55,19 @@ UsesE2(w) ==
                                                                           Eq8(V("p"), Dec(5)), Eq8(V("q"), Dec(9))>>)),
                                                  Arm(MRight("r", T16), AssertE(JetE("eq_16", <<V("r"), Dec(513)>>)))>>))>>]>>
 
+\* an Either (sides of different width) as ELEMENT of an array witness
+TAE == TArr(TE, 2)
+UsesAE(w) ==
+  <<[d |-> "u", ss |-> <<SLet(PId("unused"), TAE, EWit(w))>>],
+    [d |-> "p", ss |-> <<SLet(PArr(<<PId("h"), PIgn>>), TAE, EWit(w)),
+                         SExpr(EMatch(V("h"), <<Arm(MLeft("l", T8), AssertE(JetE("eq_8", <<V("l"), Dec(5)>>))),
+                                                Arm(MRight("r", T16), EUnit)>>))>>],
+    [d |-> "f", ss |-> <<SLet(PArr(<<PId("h"), PId("k")>>), TAE, EWit(w)),
+                         SExpr(EMatch(V("h"), <<Arm(MLeft("l", T8), AssertE(JetE("eq_8", <<V("l"), Dec(5)>>))),
+                                                Arm(MRight("r", T16), AssertE(JetE("eq_16", <<V("r"), Dec(513)>>)))>>)),
+                         SExpr(EMatch(V("k"), <<Arm(MLeft("l", T8), AssertE(JetE("eq_8", <<V("l"), Dec(5)>>))),
+                                                Arm(MRight("r", T16), AssertE(JetE("eq_16", <<V("r"), Dec(513)>>)))>>))>>]>>
+
 UsesN(w) ==
   <<[d |-> "u", ss |-> <<SLet(PId("unused"), TN, EWit(w))>>],
     [d |-> "p", ss |-> <<SLet(PTup(<<PId("p"), PIgn>>), TN, EWit(w)), Eq8(V("p"), Dec(5))>>],
@@ -73,7 +86,8 @@ Uses4(w) ==
                          Eq8(V("p"), Dec(5)), Eq16(V("m"), Dec(513)), Eq8(V("q"), Dec(9)), Eq16(V("n"), Dec(513))>>]>>
 
 ValsOf(ty) ==
-  CASE ty = TE2 -> <<VLeft(VTup(<<U8(5), U8(9)>>)), VLeft(VTup(<<U8(9), U8(5)>>)), VRight(U16(513)), VRight(U16(5))>>
+  CASE ty = TAE -> <<VArr(<<VLeft(U8(5)), VRight(U16(513))>>), VArr(<<VRight(U16(513)), VLeft(U8(5))>>), VArr(<<VLeft(U8(6)), VLeft(U8(5))>>)>>
+    [] ty = TE2 -> <<VLeft(VTup(<<U8(5), U8(9)>>)), VLeft(VTup(<<U8(9), U8(5)>>)), VRight(U16(513)), VRight(U16(5))>>
     [] ty = T4 -> <<VTup(<<U8(5), U16(513), U8(9), U16(513)>>), VTup(<<U8(9), U16(513), U8(5), U16(2)>>)>>
     [] ty = TN -> <<VTup(<<U8(5), VTup(<<U16(513), U8(9)>>)>>), VTup(<<U8(9), VTup(<<U16(513), U8(5)>>)>>),
                     VTup(<<U8(5), VTup(<<U16(2309), U8(9)>>)>>)>>
@@ -82,14 +96,14 @@ ValsOf(ty) ==
     [] ty = TE -> <<VLeft(U8(5)), VRight(U16(513)), VLeft(U8(6)), VRight(U16(7))>>
 
 Names == <<"A", "B", "C">>
-ShFamilies == {[ty |-> t, n |-> k] : t \in {TP, TO, TE, TN}, k \in {2, 3}} \cup {[ty |-> T4, n |-> 2], [ty |-> TE2, n |-> 2]}
+ShFamilies == {[ty |-> t, n |-> k] : t \in {TP, TO, TE, TN}, k \in {2, 3}} \cup {[ty |-> T4, n |-> 2], [ty |-> TE2, n |-> 2], [ty |-> TAE, n |-> 2]}
 
 \* all sequences of k use indices
 RECURSIVE IdxSeqs(_, _)
 IdxSeqs(k, m) == IF k = 0 THEN {<<>>} ELSE {<<i>> \o s : i \in 1..m, s \in IdxSeqs(k - 1, m)}
 
 ShProgramsOf(f) ==
-  LET us(w) == IF f.ty = TN THEN UsesN(w) ELSE IF f.ty = T4 THEN Uses4(w) ELSE IF f.ty = TE2 THEN UsesE2(w) ELSE Uses(f.ty, w)
+  LET us(w) == IF f.ty = TN THEN UsesN(w) ELSE IF f.ty = T4 THEN Uses4(w) ELSE IF f.ty = TE2 THEN UsesE2(w) ELSE IF f.ty = TAE THEN UsesAE(w) ELSE Uses(f.ty, w)
       m == Len(us("A"))
       vs == ValsOf(f.ty)
       pts == {[i \in 1..f.n |-> vs[c[i]]] : c \in IdxSeqs(f.n, Len(vs))}
